@@ -114,7 +114,8 @@ func (t *BaseTraveler) ListMarks() []string {
 
 // AddMark adds a result to travels state map using `label` as the name
 func (t *BaseTraveler) AddMark(label string, r *DataElement) Traveler {
-	o := BaseTraveler{Marks: map[string]*DataElement{}, Path: make([]DataElementID, len(t.Path))}
+	o := BaseTraveler{Marks: map[string]*DataElement{}, Path: make([]DataElementID, len(t.Path)),
+		Count: t.Count, Render: t.Render, Selections: t.Selections, Aggregation: t.Aggregation}
 	for k, v := range t.Marks {
 		o.Marks[k] = v
 	}
